@@ -62,7 +62,7 @@ def generate(rng, idx, tier, variant):
         for sid, ms in subs.items():
             p, _ = S.gen_plan(rng, opts, ms, False, idx)
             p.pop('before', None)
-            if rng.random() < 0.06 and p['passes']:
+            if rng.random() < 0.06 and p['passes'] and ms['endo']:
                 # a non-finite value in a submodel's check variable: nothing is prescribed for it in a linker except
                 # that a period holding one has not 'moved by less than tol' and so cannot be declared solved
                 kf = rng.randrange(len(p['passes']))
